@@ -1,5 +1,6 @@
 mod asm;
 mod authgate;
+mod cfggate;
 mod http;
 mod inst;
 mod locks;
@@ -112,6 +113,7 @@ fn main() {
         "vk-edges" => vk::run(&args[2], args[3].parse().unwrap(), &args[4]),
         "smoke" => smoke(),
         "play" => play(&args[2..]),
+        "cfggate" => cfggate::run(&args[2], &args[3]),
         "auth" => authgate::run(&args[2], &args[3]),
         "methods" => {
             let dir = tempfile::TempDir::new().unwrap();
